@@ -55,6 +55,39 @@ func runCLI(dir string, stdinPath string, args ...string) procResult {
 	return r
 }
 
+// runCLIPiped feeds standard input through a pipe in two pieces with a pause in between.
+func runCLIPiped(dir string, data []byte, cut int, args ...string) procResult {
+	ctx, cancel := context.WithTimeout(context.Background(), 60*time.Second)
+	defer cancel()
+	cmd := exec.CommandContext(ctx, cliBin, args...)
+	cmd.Dir = dir
+	var so, se bytes.Buffer
+	cmd.Stdout, cmd.Stderr = &so, &se
+	w, err := cmd.StdinPipe()
+	if err != nil {
+		return procResult{exit: -1, stderr: err.Error()}
+	}
+	if err := cmd.Start(); err != nil {
+		return procResult{exit: -1, stderr: err.Error()}
+	}
+	w.Write(data[:cut])
+	time.Sleep(150 * time.Millisecond)
+	w.Write(data[cut:])
+	w.Close()
+	err = cmd.Wait()
+	r := procResult{stdout: so.String(), stderr: se.String()}
+	if ctx.Err() != nil {
+		r.timedOut = true
+		return r
+	}
+	if ee, ok := err.(*exec.ExitError); ok {
+		r.exit = ee.ExitCode()
+	} else if err != nil {
+		r.exit = -1
+	}
+	return r
+}
+
 type namedFile struct {
 	*os.File
 	name string
@@ -177,7 +210,9 @@ func c18Programs() []string {
 
 func c18Case(c *core.Ctx, i int64, r *rand.Rand, dir string, src []byte, kind string) {
 	os.MkdirAll(dir, 0o755)
-	file := filepath.Join(dir, fmt.Sprintf("p%d.bcl", i))
+	// file stems of every shape: '--bdump' derives the dump name from them
+	stem := []string{"p", "calc", "abc", "tunnel", "lib", "x.b", "a.bcl", "b", "l", "cc", "main", "prog.c"}[i%12]
+	file := filepath.Join(dir, fmt.Sprintf("%d%s.bcl", i, stem))
 	if err := os.WriteFile(file, src, 0o644); err != nil {
 		c.Inconclusive("cannot write temp file")
 		return
@@ -240,6 +275,25 @@ func c18Case(c *core.Ctx, i int64, r *rand.Rand, dir string, src []byte, kind st
 	if !check(noFile, file, "/dev/stdin") {
 		return
 	}
+	// standard input arriving through a pipe in two pieces (a writer that pauses)
+	if i%6 == 0 && len(src) > 4 {
+		wantOut, wantErr, wantExit := libExpect(file, "/dev/stdin", fl)
+		cut := 1 + r.Intn(len(src)-1)
+		// cut at a line boundary when there is one: each piece is well-formed text on its own
+		if k := bytes.IndexByte(src, '\n'); k >= 0 && k+1 < len(src) {
+			cut = k + 1
+		}
+		got := runCLIPiped(dir, src, cut, noFile...)
+		c.Eval(1)
+		if got.timedOut {
+			c.Inconclusive("piped run did not finish")
+		} else if got.stdout != wantOut || got.stderr != wantErr || got.exit != wantExit {
+			c.Violation("cli-differs-from-library:piped-stdin", fmt.Sprintf("bcl %q with standard input arriving in two pieces (%d + %d bytes): outcome differs from the library's", noFile, cut, len(src)-cut), det(noFile, got, wantOut, wantErr, wantExit))
+			return
+		} else {
+			c.Count("process_runs_with_stdin_in_pieces", 1)
+		}
+	}
 	// --bdump then --bload (flags t and r only: the name line of -d and the parse statistics of -s belong to the source run)
 	fl2 := cliFlags{t: fl.t, r: fl.r}
 	var f2 []string
@@ -250,7 +304,7 @@ func c18Case(c *core.Ctx, i int64, r *rand.Rand, dir string, src []byte, kind st
 		f2 = append(f2, "--result")
 	}
 	wantOut, wantErr, wantExit := libExpect(file, rel, fl2)
-	bfile := filepath.Join(dir, fmt.Sprintf("p%d.bcb", i))
+	bfile := strings.TrimSuffix(file, ".bcl") + ".bcb"
 	os.Remove(bfile)
 	defer os.Remove(bfile)
 	var dumpArgs []string
